@@ -656,7 +656,9 @@ func (concpComp) Gen(rng *rand.Rand, tier string) [][]string {
 		if kind == "serial" {
 			pfx = "serial"
 		}
-		hooks := []string{pfx + ".put.afterBatchPut", pfx + ".rm.afterBatchDelete", pfx + ".get.beforeDbRead"}
+		// batch.put.enter / batch.delete.enter: the writer is stopped on its way INTO the pending batch (after the persister has
+		// decided which batch that is); whatever flushes meanwhile must not make the write vanish once it is acknowledged
+		hooks := []string{pfx + ".put.afterBatchPut", pfx + ".rm.afterBatchDelete", pfx + ".get.beforeDbRead", "batch.put.enter", "batch.put.enter", "batch.delete.enter"}
 		if kind == "db" {
 			hooks = append(hooks, "db.get.betweenBatchReads")
 		} else {
@@ -667,7 +669,7 @@ func (concpComp) Gen(rng *rand.Rand, tier string) [][]string {
 			parked := randOp()
 			if strings.Contains(hk, ".get.") {
 				parked = "get:" + keys[rng.Intn(len(keys))]
-			} else if strings.Contains(hk, ".rm.") {
+			} else if strings.Contains(hk, ".rm.") || strings.Contains(hk, ".delete.") {
 				parked = "rm:" + keys[rng.Intn(len(keys))]
 			} else {
 				parked = fmt.Sprintf("put:%s:%02x", keys[rng.Intn(len(keys))], rng.Intn(256))
